@@ -19,7 +19,7 @@ reported (finding C34-F2).  `C34_partial` is the full statement under the decida
 `guard` (Lemmas/C34c) that excludes exactly these situations; the once-only clauses and the
 NodeJoined half of the self clause hold unconditionally.
 -/
-import GoaktVerif.Lemmas.C34c
+import GoaktVerif.Lemmas.C34d
 
 namespace GoaktVerif.C34
 open GoaktVerif.Model.C34 GoaktVerif.Spec.C34
@@ -45,26 +45,8 @@ def NoOppL (n : Node) : Nat → St → List Op → Prop
   | k, s, x :: xs =>
     isJoinOf x n = false ∧ ((step s (k + 1) x).2 n).join = none ∧ NoOppL n (k + 1) (step s (k + 1) x).1 xs
 
-/-! ### the local node never reports itself -/
-
-theorem self_never_joined (pre : List Op) (op : Op) : (evAt pre op self).join = none :=
-  (stepL_self_join _ _ _ _ _ _ rfl (Inv_after pre).selfJoin).2
-
-/-- every emitted NodeLeft(n)@t belongs to a left notification for `n`: the one at position t-1 -/
-theorem emitted_left_ts (pre : List Op) (op : Op) (n : Node) (t : Nat)
-    (h : (evAt pre op n).left = some t) :
-    1 ≤ t ∧ t ≤ pre.length + 1 ∧ ∃ c, (pre ++ [op])[t - 1]? = some (.left n c) := by
-  rcases stepL_left_emit_prov _ _ _ _ _ _ t h with h | ⟨rfl, hop⟩
-  · obtain ⟨h1, h2, c, h3⟩ := (Inv_after pre).leftTs n t h
-    exact ⟨h1, by omega, c, by rw [List.getElem?_append_left (by omega)]; exact h3⟩
-  · obtain ⟨c, rfl⟩ := (isLeftOf_iff _ _).mp hop
-    exact ⟨by omega, by omega, c, by simp⟩
-
-/-- NodeLeft(self) needs a left notification naming the local node (which the code does not filter) -/
-theorem self_left_only_if_notified (pre : List Op) (op : Op) (t : Nat)
-    (h : (evAt pre op self).left = some t) : ∃ c, Op.left self c ∈ pre ++ [op] := by
-  obtain ⟨_, _, c, hc⟩ := emitted_left_ts pre op self t h
-  exact ⟨c, List.mem_of_getElem? hc⟩
+/-! ### the local node never reports itself: `self_never_joined`, `self_left_only_if_notified`,
+`emitted_left_ts` and `guard_no_self_left` are in Lemmas/C34c -/
 
 /-! ### at most one NodeLeft -/
 
@@ -193,12 +175,6 @@ def C34_partial_stmt : Prop :=
         (evAt (pre ++ op :: post) op' n).join = none) ∧
       (∀ t, (evAt pre op n).left = some t → gateOK (pre ++ [op]) pre.length n t = true)
 
-theorem guard_no_self_left (h : List Op) (hg : guard h = true) (c : Epoch) : Op.left self c ∉ h := by
-  intro hm
-  obtain ⟨a, b, rfl⟩ := List.append_of_mem hm
-  have := guard_split a _ b hg
-  simp [guardStep] at this
-
 theorem C34_partial : C34_partial_stmt := by
   intro pre op hg
   refine ⟨self_never_joined pre op, ?_, fun n => ⟨?_, ?_, ?_⟩⟩
@@ -212,6 +188,23 @@ theorem C34_partial : C34_partial_stmt := by
   · intro t ht
     exact gate_step (Inv_after pre) (CovInv_after pre (guard_prefix _ _ hg)) op
       (guard_split pre op [] hg) n t ht
+
+/-! ### the oracle and the theorem are the same predicate -/
+
+/-- `Spec.C34.verdict` is the predicate the check evaluates on the IMPLEMENTATION's output
+    (judge mode).  On the model's own run (observed on any duplicate-free node list `U`) it never
+    reports a violation when the history satisfies the guard: so an implementation that the judge
+    flags on a guarded history differs from the model on that history. -/
+theorem verdict_sound (U : List Node) (hU : U.Nodup) (h : List Op) (hg : guard h = true) :
+    verdict h (renderRun U h) = none := by
+  have hlen : (renderRun U h).length = h.length := by simp [renderRun, run, run_length]
+  simp only [verdict, hlen, ne_eq, not_true_eq_false, if_false]
+  have := verdictFrom_ok U hU h hg h [] ⟨[], []⟩ rfl ⟨by simp, by simp⟩
+  simpa [renderRun, run, after, runFrom] using this
+
+-- test: the judge flags the model's run on the refutation witness (observed on nodes 0,1,2)
+example : (verdict (witnessPre ++ [witnessOp]) (renderRun [0, 1, 2] (witnessPre ++ [witnessOp]))).isSome = true := by
+  decide
 
 /-! ### non-vacuity -/
 
